@@ -37,6 +37,9 @@ pub struct Case {
     #[serde(default)]
     pub idle_skew_ms: u16,
     pub keep_alive: bool,
+    /// keep-alive interval as a percentage of the node's idle timeout (0 = the default third)
+    #[serde(default)]
+    pub keep_alive_pct: u8,
     pub ops: Vec<Op>,
 }
 
@@ -49,6 +52,8 @@ const SAMPLE_MS: u64 = 100;
 struct Slot {
     node: Node,
     alive: bool,
+    /// this incarnation's event stream (the sampler uses it to tell a new entry for a peer from an old one)
+    events: Option<tokio::sync::broadcast::Receiver<anemo::types::PeerEvent>>,
     /// every address this identity has used (a crashed incarnation's address stays relevant:
     /// stale connections point at it)
     addrs: Vec<std::net::SocketAddr>,
@@ -79,7 +84,7 @@ pub fn check(case: &Case, obs: &mut Obs) -> Result<(), Fail> {
             let mut s = NodeSpec::new(i as u8);
             let q = s.config.quic.as_mut().unwrap();
             q.max_idle_timeout_ms = Some(idle_of(i));
-            q.keep_alive_interval_ms = if case.keep_alive { Some(idle_of(i) / 3) } else { None };
+            q.keep_alive_interval_ms = if case.keep_alive { Some(if case.keep_alive_pct == 0 { idle_of(i) / 3 } else { idle_of(i) * case.keep_alive_pct.clamp(10, 98) as u64 / 100 }) } else { None };
             s.config.shutdown_idle_timeout_ms = Some(200);
             s
         };
@@ -87,7 +92,8 @@ pub fn check(case: &Case, obs: &mut Obs) -> Result<(), Fail> {
         for i in 0..n {
             let node = sim.node_with(spec(i))?;
             let addrs = vec![node.addr()];
-            slots.lock().unwrap().push(Slot { node, alive: true, addrs });
+            let events = node.net.subscribe().ok().map(|(rx, _)| rx);
+            slots.lock().unwrap().push(Slot { node, alive: true, events, addrs });
         }
         let ids: Vec<PeerId> = slots.lock().unwrap().iter().map(|s| s.node.id()).collect();
         let tracker = Arc::new(Mutex::new(Tracker::default()));
@@ -100,8 +106,28 @@ pub fn check(case: &Case, obs: &mut Obs) -> Result<(), Fail> {
             let ids = ids.clone();
             move || {
                 let now = fabric.now_ms();
-                let sl = slots.lock().unwrap();
+                let mut sl = slots.lock().unwrap();
                 let mut tr = tracker.lock().unwrap();
+                // an entry that was re-created since the last sample (NewPeer seen by its owner) is a new
+                // entry: a one-sided period does not continue across it, even when the mutual window in
+                // between was shorter than the sampling step
+                for a in 0..sl.len() {
+                    if let Some(rx) = sl[a].events.as_mut() {
+                        loop {
+                            match rx.try_recv() {
+                                Ok(anemo::types::PeerEvent::NewPeer(p)) => {
+                                    let key = (a, p.0);
+                                    if let Some(since) = tr.stale_since.get_mut(&key) { *since = now; }
+                                    tr.stale_rtt.remove(&key);
+                                    tr.io.remove(&key);
+                                }
+                                Ok(_) => {}
+                                Err(tokio::sync::broadcast::error::TryRecvError::Lagged(_)) => continue,
+                                Err(_) => break,
+                            }
+                        }
+                    }
+                }
                 for a in 0..sl.len() {
                     let a_lists: Vec<PeerId> = if sl[a].alive { sl[a].node.net.peers() } else { vec![] };
                     for b in 0..sl.len() {
@@ -256,7 +282,8 @@ pub fn check(case: &Case, obs: &mut Obs) -> Result<(), Fail> {
                     let mut sl = slots.lock().unwrap();
                     let mut addrs = sl[i].addrs.clone();
                     addrs.push(fresh.addr());
-                    sl[i] = Slot { node: fresh, alive: true, addrs };
+                    let events = fresh.net.subscribe().ok().map(|(rx, _)| rx);
+                    sl[i] = Slot { node: fresh, alive: true, events, addrs };
                 }
                 Op::Crash { node, down_ms } => {
                     let i = *node as usize % n;
@@ -275,7 +302,8 @@ pub fn check(case: &Case, obs: &mut Obs) -> Result<(), Fail> {
                     let mut sl = slots.lock().unwrap();
                     let mut addrs = sl[i].addrs.clone();
                     addrs.push(fresh.addr());
-                    let old = std::mem::replace(&mut sl[i], Slot { node: fresh, alive: true, addrs });
+                    let events = fresh.net.subscribe().ok().map(|(rx, _)| rx);
+                    let old = std::mem::replace(&mut sl[i], Slot { node: fresh, alive: true, events, addrs });
                     Box::leak(Box::new(old.node)); // never closed, never dropped
                 }
                 Op::Partition { a, b, one_way, ms } => {
@@ -355,7 +383,7 @@ impl Part for Histories {
     type Case = Case;
     fn name(&self) -> &'static str { "histories" }
     fn rule(&self) -> &'static str {
-        "2-5 networks (idle timeout 3.5-12 s, keep-alive on or off; shorter idle timeouts are not generated because QUIC floors the idle period at 3 PTO, which is up to ~3 s before RTT samples exist): per-node idle timeouts may differ (each node's own value bounds how long it may keep a dead entry); histories of connect, connect_with_peer_id, disconnect, rpc, graceful shutdown + restart, crash (black-hole, nothing closed) + restart with the same key on a fresh address, pairwise and ONE-DIRECTIONAL partitions, loss bursts, waits; views sampled every 100 ms of virtual time; oracle: (1) no period during which A lists B while B does not list A exceeds idle timeout + 500 ms slack; (2) after a fault-free tail views are mutual and every listed peer answers an RPC; (3) disconnect removes at once, the next event for that peer is LostPeer(Requested), RPCs to it fail until reconnected; a one-sided period in (idle+slack, 2*idle+slack] whose stale side transmitted after its last receipt is the known finding F5; non-trivial = a partition/crash longer than the idle timeout, or a disconnect followed by a reconnect; distinct by history"
+        "2-5 networks (idle timeout 3.5-12 s, keep-alive off or at 10-98 % of the idle timeout; shorter idle timeouts are not generated because QUIC floors the idle period at 3 PTO, which is up to ~3 s before RTT samples exist): per-node idle timeouts may differ (each node's own value bounds how long it may keep a dead entry); histories of connect, connect_with_peer_id, disconnect, rpc, graceful shutdown + restart, crash (black-hole, nothing closed) + restart with the same key on a fresh address, pairwise and ONE-DIRECTIONAL partitions, loss bursts, waits; views sampled every 100 ms of virtual time; oracle: (1) no period during which A lists B while B does not list A exceeds idle timeout + 500 ms slack; (2) after a fault-free tail views are mutual and every listed peer answers an RPC; (3) disconnect removes at once, the next event for that peer is LostPeer(Requested), RPCs to it fail until reconnected; a one-sided period in (idle+slack, 2*idle+slack] whose stale side transmitted after its last receipt is the known finding F5; non-trivial = a partition/crash longer than the idle timeout, or a disconnect followed by a reconnect; distinct by history"
     }
     fn strategy(&self, _t: Tier) -> BoxedStrategy<Case> {
         let op = prop_oneof![
@@ -369,8 +397,8 @@ impl Part for Histories {
             1 => (50u16..400, 100u16..5000).prop_map(|(pm, ms)| Op::Loss { pm, ms }),
             4 => prop_oneof![0u16..100, 100u16..3000, 3000u16..25_000].prop_map(Op::Wait),
         ];
-        (2u8..6, 3_500u16..12_000, prop_oneof![2 => Just(0u16), 2 => 2_000u16..15_000], any::<bool>(), prop::collection::vec(op, 1..22))
-            .prop_map(|(nodes, idle_ms, idle_skew_ms, keep_alive, ops)| Case { nodes, idle_ms, idle_skew_ms, keep_alive, ops })
+        (2u8..6, 3_500u16..12_000, prop_oneof![2 => Just(0u16), 2 => 2_000u16..15_000], any::<bool>(), prop::collection::vec(op, 1..22), prop_oneof![2 => Just(0u8), 1 => 10u8..60, 2 => 60u8..99])
+            .prop_map(|(nodes, idle_ms, idle_skew_ms, keep_alive, ops, keep_alive_pct)| Case { nodes, idle_ms, idle_skew_ms, keep_alive, keep_alive_pct, ops })
             .boxed()
     }
     fn run(&self, c: &Case, obs: &mut Obs) -> Result<(), Fail> { check(c, obs) }
